@@ -160,7 +160,9 @@ class Capacities(JSONField):
                 assert isinstance(v, int)
             try:
                 # will toss an exception if field is not defined
-                self.__getattribute__(k)
+                if k not in self.__dict__:
+                    # methods and class tables are attributes too, only declared fields can be set
+                    raise AttributeError(k)
                 self.__setattr__(k, v)
             except AttributeError:
                 report = f"Unable to set field {k} of capacity, no such field available "\
@@ -312,7 +314,9 @@ class CapacityHints(JSONField):
             assert isinstance(v, str)
             try:
                 # will toss an exception if field is not defined
-                self.__getattribute__(k)
+                if k not in self.__dict__:
+                    # methods and class tables are attributes too, only declared fields can be set
+                    raise AttributeError(k)
                 self.__setattr__(k, v)
             except AttributeError:
                 report = f"Unable to set field {k} of capacity hints, no such field available"
@@ -425,7 +429,9 @@ class Labels(JSONField):
             assert isinstance(v, str) or isinstance(v, list)
             try:
                 # will toss an exception if field is not defined
-                self.__getattribute__(k)
+                if k not in self.__dict__:
+                    # methods and class tables are attributes too, only declared fields can be set
+                    raise AttributeError(k)
                 if self.VALIDATORS.get(k, None) is not None:
                     if isinstance(v, list):
                         for i in v:
@@ -518,7 +524,9 @@ class ReservationInfo(JSONField):
             assert isinstance(v, str) or isinstance(v, list)
             try:
                 # will toss an exception if field is not defined
-                self.__getattribute__(k)
+                if k not in self.__dict__:
+                    # methods and class tables are attributes too, only declared fields can be set
+                    raise AttributeError(k)
                 self.__setattr__(k, v)
             except AttributeError:
                 report = f"Unable to set field {k} of reservation info, no such field "\
@@ -554,7 +562,9 @@ class StructuralInfo(JSONField):
             assert isinstance(v, str) or isinstance(v, list)
             try:
                 # will toss an exception if field is not defined
-                self.__getattribute__(k)
+                if k not in self.__dict__:
+                    # methods and class tables are attributes too, only declared fields can be set
+                    raise AttributeError(k)
                 self.__setattr__(k, v)
             except AttributeError:
                 report = f"Unable to set field {k} of structural info, no such field available"
@@ -587,7 +597,9 @@ class Location(JSONField):
             assert isinstance(v, str) or isinstance(v, float)
             try:
                 # will throw exception if field is not defined
-                self.__getattribute__(k)
+                if k not in self.__dict__:
+                    # methods and class tables are attributes too, only declared fields can be set
+                    raise AttributeError(k)
                 self.__setattr__(k, v)
             except AttributeError:
                 report = f"Unable to set field {k} of location, no such field available"
@@ -665,7 +677,9 @@ class Flags(JSONField):
             assert isinstance(v, bool)
             try:
                 # will throw exception if field is not defined
-                self.__getattribute__(k)
+                if k not in self.__dict__:
+                    # methods and class tables are attributes too, only declared fields can be set
+                    raise AttributeError(k)
                 self.__setattr__(k, v)
             except AttributeError:
                 report = f"Unable to set field {k} of flags, no such field available"
